@@ -232,7 +232,8 @@ main (int argc, char **argv)
 	alarm (30);
 	if (kind[0] == 'C')
 	{
-	    int mode = (int)f[k++], op = (int)f[k++];
+	    /* mode + 4: rows contiguous (no padding words) in every image of this request */
+	    int mode_raw = (int)f[k++], mode = mode_raw & 3, op = (int)f[k++];
 	    pixman_format_code_t sfmt = (pixman_format_code_t)f[k++];
 	    int sw = (int)f[k++], sh = (int)f[k++], sneg = (int)f[k++], srep = (int)f[k++], sfilt = (int)f[k++];
 	    pixman_transform_t tr;
@@ -248,10 +249,12 @@ main (int argc, char **argv)
 	    w = (int)f[k++]; h = (int)f[k++];
 	    vrng_seed (&rng, (uint64_t)f[k++]);
 	    nimgs = 0;
+	    force_min_stride = (mode_raw & 4) != 0;
 	    src = make_image (nimgs++, sfmt, sw, sh, sneg, mode, &rng);
 	    if (mfmt)
 		mask = make_image (nimgs++, mfmt, mw, mh, 0, mode, &rng);
 	    dst = make_image (nimgs++, dfmt, dw, dh, dneg, mode, &rng);
+	    force_min_stride = 0;
 	    fprintf (vt_out, "{\"e\":\"Req\",\"n\":%d,\"kind\":\"C\",\"mode\":%d,\"op\":%d,\"sw\":%d,\"sh\":%d,\"srep\":%d,\"sfilt\":%d,"
 		     "\"m\":[%d,%d,%d,%d,%d,%d,%d,%d,%d],\"sx\":%d,\"sy\":%d,\"mx\":%d,\"my\":%d,\"dx\":%d,\"dy\":%d,\"w\":%d,\"h\":%d,\"dw\":%d,\"dh\":%d,\"ok\":%s}\n",
 		     reqno, mode, op, sw, sh, srep, sfilt,
@@ -271,8 +274,12 @@ main (int argc, char **argv)
 		else
 		    pixman_image_set_filter (src, (pixman_filter_t)sfilt, NULL, 0);
 		pixman_image_set_transform (src, &tr);
-		if (mask && vrng_below (&rng, 3) == 0)
-		    pixman_image_set_repeat (mask, PIXMAN_REPEAT_NORMAL);
+		{
+		    /* a 1x1 mask always repeats (the library then treats it as a solid mask) */
+		    int mrep = vrng_below (&rng, 3) == 0;
+		    if (mask && (mrep || (mw == 1 && mh == 1)))
+			pixman_image_set_repeat (mask, PIXMAN_REPEAT_NORMAL);
+		}
 		pixman_image_composite32 ((pixman_op_t)op, src, mask, dst, sx, sy, mx, my, dx, dy, w, h);
 	    }
 	}
